@@ -178,7 +178,11 @@ def analyse(repo):
         for st in m.tree.body:
             if isinstance(st, ast.Expr) and isinstance(st.value, ast.Call):
                 key = (m.name, norm_stmt(st))
-                if key not in REVIEWED_TOPLEVEL and not _effect_free_call(repo, E, m, st.value):
+                is_limit = isinstance(st.value.func, ast.Attribute) and st.value.func.attr == "setrecursionlimit" and \
+                    not any(isinstance(x, ast.Name) and x.id not in (getattr(st.value.func.value, "id", None), "max", "min")
+                            and not x.id.startswith("_") for x in ast.walk(st.value) if isinstance(x, ast.Name))
+                # the interpreter's recursion limit: the one reviewed import-time setting (its value is C04.R8's subject)
+                if key not in REVIEWED_TOPLEVEL and not is_limit and not _effect_free_call(repo, E, m, st.value):
                     findings.append(("R2", m.name, f"import-time call {norm_stmt(st)[:80]}", f"{m.relpath}:{st.lineno}",
                                      "statement executed for effect at import"))
             for t in (st.targets if isinstance(st, ast.Assign) else [st.target] if isinstance(st, (ast.AugAssign, ast.AnnAssign)) else []):
